@@ -311,9 +311,9 @@ def qualifiedBy (db : Name) (parts : List Name) (star : Bool) : Bool :=
   | p :: _ => decide (identLen parts star > 1) && decide (lower p = db)
   | [] => false
 
-/-- repaired cut (fixes/C11_2.diff): a two-part identifier that is not a table (`int1.x`, `int1.*`) is left
+/-- the cut since 1ea1207: a two-part identifier that is not a table (`int1.x`, `int1.*`) is left
 alone when `db` is one of `names` = the lower-cased table aliases and CTE names of the query.
-`names = []` is the cut as it is in the code today. -/
+`names = []` is the cut before that commit. -/
 def keepsLocal (db : Name) (names : List Name) (isTab : Bool) (parts : List Name) (star : Bool) : Bool :=
   !isTab && identLen parts star == 2 && names.contains db
 
@@ -458,8 +458,8 @@ def isCteRef (ctes : List Name) (parts : List Name) : Bool :=
 
 /-- `find_objects` on one visited item; the `'.'.join(parts) not in cte_names` filter is applied here
 (equivalent: it only removes entries from `mdb_entities`).  `none` = PlanningException out of
-`resolve_database_table`.  `skip = false`: the code today (a CTE reference is resolved like a table; it is forgiven only as a
-mindsdb entity).  `skip = true`: fixes/C11_1.diff — a bare CTE name is not looked at at all. -/
+`resolve_database_table`.  `skip = true`: the code since 0e75382 — a bare CTE name is not looked at at all.  `skip = false`: before (a CTE
+reference was resolved like a table and forgiven only as a mindsdb entity). -/
 def infoStep (skip : Bool) (c : Catalog) (ctes : List Name) (qi : QueryInfo) : Item → Option QueryInfo
   | .udf => some { qi with userFunctions := qi.userFunctions + 1 }
   | .native => some { qi with mdbEntities := qi.mdbEntities + 1 }
